@@ -162,8 +162,17 @@ func (p *redisProc) StopListen() error {
 }
 
 func (p *redisProc) Stop() error {
+	// NOTE: the listener waits for its sessions, and a session which has
+	// filled its queue with requests a backend does not answer only gets
+	// going again when these are answered: the upstream must not wait for
+	// the listener.
+	done := make(chan struct{})
+	go func() {
+		p.u.Stop()
+		close(done)
+	}()
 	p.l.Stop()
-	p.u.Stop()
+	<-done
 	p.wg.Wait()
 	return nil
 }
